@@ -1062,3 +1062,29 @@ Proof.
   - intros H; inversion H; subst. apply poll_read_payload_err in E.
     intros n2 cap2. unfold poll_read. rewrite (stuck_poll_read_payload dec r' E n2). reflexivity.
 Qed.
+
+(* poll_read never puts more than buf.remaining() bytes into the caller's buffer, and plaintext that is
+   already buffered is handed out before the transport is touched: no transport read, no new frame
+   decrypted, and never an empty (end-of-stream looking) result while decrypted bytes are waiting *)
+Lemma c13_poll_read_bounded dec r n cap r' n' out :
+  poll_read dec r n cap = Ok (r', n', PReady out) ->
+  length out <= cap /\
+  (0 < cap -> 0 < buf_len (r_payload r) ->
+   out = firstn (Nat.min cap (buf_len (r_payload r))) (buf_as_slice (r_payload r)) /\
+   out <> [] /\ r_got r' = r_got r /\ r_frame r' = r_frame r /\ n' = n).
+Proof.
+  unfold poll_read.
+  destruct (poll_read_payload dec r n) as [[[r1 n1] res]| |] eqn:E; cbn [bind]; try discriminate.
+  destruct res as [u| |e].
+  - destruct (buf_take _ _) as [p1| |] eqn:T; cbn [bind]; intros H; inversion H; subst; clear H.
+    split.
+    + rewrite firstn_length. lia.
+    + intros Hc Hl. unfold poll_read_payload in E.
+      destruct (Nat.ltb_spec 0 (buf_len (r_payload r))) as [_|Hn]; [|lia].
+      inversion E; subst; clear E. cbn [r_got r_frame].
+      repeat split; try reflexivity.
+      intros Hnil. apply (f_equal (@length Z)) in Hnil.
+      rewrite firstn_length in Hnil. unfold buf_as_slice, buf_len in *. cbn [length] in Hnil. lia.
+  - intros H; inversion H.
+  - intros H; inversion H.
+Qed.
